@@ -3,13 +3,21 @@
 import json, os
 ROOT = os.path.dirname(os.path.dirname(os.path.abspath(__file__)))
 
+CLOUD_SUFFIX = (" In addition every driver call of whole-node runs (seeded scenarios with a focus chosen for this property and a sample of the "
+                "check's own node-level plans) is one event validated by TLC against Cloud.tla (Trace_Cloud: the state after the call must be the "
+                "successor the specification prescribes, aspect by aspect; only the rules stating this property are enforced).")
+CLOUD_PROPS = {"C01", "C05", "C08", "C09", "C10", "C12", "C14", "C15"}
+CLOUD_DESIGN = {"C12", "C14", "C15"}
+
 CHECKS = {
     "C03": dict(
         text="TLC explores every interleaving of seal/deliver-again/tamper/tick/rotate of NonceWindow.tla within small bounds and checks the "
              "history-based window rule; every transition of that graph is executed on real CryptoCore pairs (3 ciphers) and the recorded "
-             "traces plus seeded random 400-step histories are validated by TLC against the same specification.",
+             "traces plus seeded random 400-step histories and sessions with rotation are validated by TLC against the same specification; at node level 2-3 whole "
+             "mock-backed nodes exchange frames, every sealed datagram of every direction is re-injected 0..5 housekeeping rounds after its first delivery "
+             "(also next to a replayed handshake ping, also delayed) and TLC judges every arrival per direction with the same rule.",
         note="AEAD treated as perfect; bounds: 4-5 datagrams, 4-5 ticks, 2 slots at design level, all 4 slots in random histories; tick = CryptoCore::every_second",
-        technique="TLA+ spec NonceWindow + TLC exhaustive; transition-cover replay on real CryptoCore; TLC trace validation",
+        technique="TLA+ spec NonceWindow + TLC exhaustive; transition-cover replay on real CryptoCore; TLC trace validation (object, session and node level)",
         design_ref="DESIGN.md 3.1, 6 (C03)"),
     "C04": dict(
         text="TLC checks the counter algebra of Nonce.tla exhaustively for radix 4 (increment = +1 with carry, strictly increasing, a counter beyond the "
@@ -96,14 +104,15 @@ CHECKS = {
         text="Envelope.tla states when a sealed datagram opens (intact, sealed for this connection by the other end, slot holds its key, inside the window) and TLC checks it for a 3-end mesh "
              "with every tamper class, reflection and cross-connection injection (variants without nonce halves / with key ids modulo 4 must be refuted); on real CryptoCore pairs and "
              "PeerCrypto sessions: payload lengths 0..300 and sampled to 9000, all ciphers and negotiated combinations, buffer offsets, every bit flip and truncation, reflection, every ordered "
-             "pair of connections of three ends, cleartext search of sealed datagrams; TLC judges every recorded case / family.",
+             "pair of connections of three ends, cleartext search of sealed datagrams, contents of all key slots (equal material exactly where Envelope!KeyAt is equal), datagrams sealed by an outsider under constant keys with every key id and half, and fresh genuine datagrams 0..4 housekeeping ticks after rejected ones (no lasting effect); TLC judges every recorded case / family.",
         note="AEAD perfect in the spec; tamper = single bits and truncations, not all modifications; node-level interface-queue part is covered by C08/C09/C10 records",
         technique="TLA+ spec Envelope + TLC (+ required refutations); exhaustive tamper families on real cores and sessions; TLC trace validation",
         design_ref="DESIGN.md 6 (C02); docs/C02.md"),
     "C06": dict(
         text="TLC enumerates every pair of advertised cipher lists (orderings x speed grid x plain flags) and checks that the identity tie-break rule yields the same admissible cipher at "
              "both ends (the list-order rule must be refuted); real handshakes with prescribed speeds for every pair of advertised sets x orderings x initiator, and every single-field edit "
-             "of the cipher list in a genuine ping/pong, are judged by TLC with Negotiate!OutcomeOK.",
+             "of the cipher list in a genuine ping/pong, are judged by TLC with Negotiate!OutcomeOK; both ends are offered an unsealed message at every stage of every handshake "
+             "(Negotiate!UnsealedProbesOK: taken only after a handshake that agreed on Plain).",
         note="NaN speeds excluded; a node cannot advertise an empty set except 'plain only'; speeds mapped order-preservingly to f32 incl. zero, ties and f32::MAX",
         technique="TLA+ spec Negotiate + TLC exhaustive; real handshakes with the speed hook; TLC trace validation",
         design_ref="DESIGN.md 3.3, 6 (C06); docs/C06.md"),
@@ -172,9 +181,12 @@ def main():
             "evidence_file": "/verif/evidence/%s.json" % pid,
             "replay_cmd_template": "bin/check %s --replay {path}" % pid,
             "engine": "tla-conformance",
-            "level_claimed": {"category": c.get("category", "model_checking"), "text": c["text"], "design_ref": c["design_ref"]},
+            "level_claimed": {"category": c.get("category", "model_checking"),
+                              "text": c["text"] + (CLOUD_SUFFIX if pid in CLOUD_PROPS else "")
+                                      + (" TLC also explores MC_Cloud.tla (Cloud.tla closed with an environment: every delivery order, silence, crash-restart, loss) with the node-level invariants of this property." if pid in CLOUD_DESIGN else ""),
+                              "design_ref": c["design_ref"] + (", 3.7" if pid in CLOUD_PROPS else "")},
             "level_note": c["note"],
-            "technique": c["technique"],
+            "technique": c["technique"] + ("; event-by-event TLC trace validation of whole nodes against Cloud.tla" if pid in CLOUD_PROPS else ""),
         })
     m = {
         "version": 1,
